@@ -1,2 +1,3 @@
 //! Seeded generators (ground truth known by construction).
 pub mod json;
+pub mod emit;
